@@ -1094,7 +1094,9 @@ class DigitalWaveform(Generic[TDigitalState]):
         return self._get_line_names()[column_index]
 
     def _set_line_name(self, column_index: int, value: str) -> None:
-        line_names = self._get_line_names()
+        # Update a copy of the cached names so that a rejected value (for example, a non-str name
+        # that makes join() raise TypeError) does not leak into the cache.
+        line_names = list(self._get_line_names())
         line_names[column_index] = value
         self._extended_properties[LINE_NAMES] = ", ".join(line_names)
 
